@@ -188,7 +188,7 @@ func runC01(c *Ctx) {
 		// cashaddr attempts end in a checksum mismatch before the key is considered (planner search)
 		if net == 1 || net == 6 || c.Thorough() {
 			found := 0
-			for sc := 2; sc < c.Pick(40000, 200000) && found < 3; sc++ {
+			for sc := 2; sc < c.Pick(120000, 300000) && found < 3; sc++ {
 				var kb [32]byte
 				kb[29], kb[30], kb[31] = byte(sc>>16), byte(sc>>8), byte(sc)
 				_, pub := bchec.PrivKeyFromBytes(bchec.S256(), kb[:])
